@@ -117,27 +117,34 @@ def padDigits (width : Nat) (n : Nat) : List Char :=
 
 def stripZeros (l : List Char) : List Char := (l.reverse.dropWhile (· == '0')).reverse
 
+/-- fractional part of the text: trailing zeros removed, and no `.` when nothing is left -/
+def fracStr (l : List Char) : List Char :=
+  let f := stripZeros l
+  if f.isEmpty then [] else '.' :: f
+
+/-- layout of `%g`: `ds` = the `p` significant digits d1 d2 … dp, value = d1.d2…dp × 10^x; scientific notation iff
+    x < −4 or x ≥ p, otherwise fixed -/
+def gText (p : Nat) (neg : Bool) (ds : List Char) (x : Int) : Tok :=
+  let sign : List Char := if neg then ['-'] else []
+  if x < -4 || x ≥ (p : Int) then
+    sign ++ ds.take 1 ++ fracStr (ds.drop 1) ++ ['e', if x < 0 then '-' else '+'] ++ padDigits 2 (if x < 0 then (-x).toNat else x.toNat)
+  else if x ≥ 0 then
+    sign ++ ds.take (x.toNat + 1) ++ fracStr (ds.drop (x.toNat + 1))
+  else
+    sign ++ ['0'] ++ fracStr (List.replicate ((-x).toNat - 1) '0' ++ ds)
+
+/-- the `p` significant digits (as a number) and the decimal exponent of a positive rational, round-half-even -/
+def sigDigits (p : Nat) (a : Rat) : Nat × Int :=
+  let x0 := floorLog10 a
+  let n0 := roundHalfEven (a / pow10Q (x0 - (p : Int) + 1))
+  if n0 == 10 ^ p then (10 ^ (p - 1), x0 + 1) else (n0, x0)
+
 /-- `printf("%.*g", p, d)` -/
 def printDQ (p : Nat) (q : Rat) : Tok :=
   let p := if p == 0 then 1 else p
   if q == 0 then ['0'] else
-  let a := if q < 0 then -q else q
-  let sign : List Char := if q < 0 then ['-'] else []
-  let x0 := floorLog10 a
-  let n0 := roundHalfEven (a / pow10Q (x0 - (p : Int) + 1))
-  let (n, x) := if n0 == 10 ^ p then (10 ^ (p - 1), x0 + 1) else (n0, x0)
-  let ds := padDigits p n          -- exactly p digits d1 d2 … dp, value = d1.d2…dp × 10^x
-  if x < -4 || x ≥ (p : Int) then
-    let frac := stripZeros (ds.drop 1)
-    let ex := if x < 0 then (-x).toNat else x.toNat
-    sign ++ ds.take 1 ++ (if frac.isEmpty then [] else '.' :: frac) ++ ['e', if x < 0 then '-' else '+'] ++ padDigits 2 ex
-  else if x ≥ 0 then
-    let k := x.toNat + 1
-    let frac := stripZeros (ds.drop k)
-    sign ++ ds.take k ++ (if frac.isEmpty then [] else '.' :: frac)
-  else
-    let frac := stripZeros (List.replicate ((-x).toNat - 1) '0' ++ ds)
-    sign ++ ['0'] ++ (if frac.isEmpty then [] else '.' :: frac)
+  let nx := sigDigits p (if q < 0 then -q else q)
+  gText p (decide (q < 0)) (padDigits p nx.1) nx.2
 
 def absR (q : Rat) : Rat := if q < 0 then -q else q
 def sumQ (l : List Rat) : Rat := l.foldl (· + ·) 0
